@@ -1,6 +1,8 @@
 """C19 — Wulff construction: homogeneity degrees, dual-point plumbing, orientation parity of facet ordering."""
 from __future__ import annotations
 
+import ast
+
 from ..core import AnalysisError
 from ..poly import P
 from ..symex import Ev, find_atoms, call_name, seq_items, obj_init
@@ -236,6 +238,28 @@ def run(chk):
     chk.rule("R19.4", "facet bookkeeping and scale: one ordered vertex list per facet (position i <-> facet i) on every path; the pruning "
                       "comparison is scale free and squares the threshold with the distance; energies are stored with a dtype of their own", 3)
     chk.rule("R19.3", "orientation: in-plane basis (a, n x a), ascending atan2(v, u), fan triangulation (f0, f_i, f_i+1)", 6)
+    chk.rule("R19.5", "symmetry expansion of the input planes keeps, for every direction, the lowest energy seen for THAT direction: a direction's "
+                      "entry is replaced under a test on that same direction's entry", 2)
+    if chk.want("R19.5") and "expand_symmetry_related_planes" in w.funcs:
+        fn_ = w.expanded("expand_symmetry_related_planes", w.funcs["expand_symmetry_related_planes"])
+        chk.saw(W, "expand_symmetry_related_planes")
+        n5 = 0
+        for st_ in ast.walk(fn_):
+            if not isinstance(st_, ast.If):
+                continue
+            stores = [t for b in st_.body if isinstance(b, ast.Assign) for t in b.targets if isinstance(t, ast.Subscript) and isinstance(t.value, ast.Name)]
+            for t in stores:
+                table, key = t.value.id, ast.unparse(t.slice)
+                looked = [ast.unparse(x.slice) for x in ast.walk(st_.test) if isinstance(x, ast.Subscript) and isinstance(x.value, ast.Name) and x.value.id == table]
+                member = [ast.unparse(c.left) for c in ast.walk(st_.test) if isinstance(c, ast.Compare) and len(c.ops) == 1 and isinstance(c.ops[0], (ast.In, ast.NotIn))
+                          and isinstance(c.comparators[0], ast.Name) and c.comparators[0].id == table]
+                if not (looked or member):
+                    continue
+                n5 += 1
+                chk.ob("R19.5", W, "expand_symmetry_related_planes", f"the entry {table}[{key}] is replaced under a test on {table}[{key}] itself (membership and "
+                       "stored energy of the same key)", all(k == key for k in looked + member), node=st_, fingerprint=f"same-key:{key}",
+                       expected=f"{key} not in {table} or E[{table}[{key}]] > E[i]", found=f"tests {sorted(set(looked + member))}")
+        chk.need(n5 >= 2, f"expand_symmetry_related_planes: expected two guarded replacements (direction and its opposite), found {n5}")
     pv = w.ev("WulffConstruction._populate_duals")
     xv = w.ev("WulffConstruction._extract_wulff_from_dual_mesh", opaque={"simplices", "normals", "facet_indices", "corresponding_facet_normals",
                                                                            "corresponding_facet_energies", "inv_factors", "scaling_factors", "vertices", "a", "b", "c"})
